@@ -1,7 +1,7 @@
 // C18 (scheduled half) — queue-specific data and dispatch_assert_queue follow the target chain
 //
 // variant = hierarchy shape x key placement x submission path x assertion mode
-//   shapes:  0: S0   1: S1>S0   2: C2>S1>S0   3: C1>S0   4: S2>C1>S0      (S serial, C concurrent)
+//   shapes:  0: S0   1: S1>S0   2: C2>S1>S0   3: C1>S0   4: S2>C1>S0   5: S1>W0   6: C2>S1>W0   (S serial, C concurrent, W workloop)
 //   placement: bit i set = key K has a value on level i (value 'a'+i); nearest level from the top wins
 //   paths: async, sync, barrier_async, barrier_sync, async_and_wait, apply(2), block async
 //   assertion mode: 0 = every assert that must hold is executed (dispatch_assert_queue on each queue of
@@ -10,8 +10,9 @@
 #include "hcommon.h"
 #include <dispatch/private.h>
 
-static const int DEPTH[] = { 1, 2, 3, 2, 3 };
-static const char *const SHAPE[] = { "S0", "S1>S0", "C2>S1>S0", "C1>S0", "S2>C1>S0" };
+static const int DEPTH[] = { 1, 2, 3, 2, 3, 2, 3 };
+#define NSHAPE 7
+static const char *const SHAPE[] = { "S0", "S1>S0", "C2>S1>S0", "C1>S0", "S2>C1>S0", "S1>W0 (workloop at the bottom)", "C2>S1>W0 (workloop at the bottom)" };
 static const char *const PATH[] = { "dispatch_async_f", "dispatch_sync_f", "dispatch_barrier_async_f", "dispatch_barrier_sync_f", "dispatch_async_and_wait_f", "dispatch_apply_f(2)", "dispatch_async of a block" };
 #define NPATH 7
 typedef struct { int shape, mask, path, mode; } var;
@@ -21,7 +22,7 @@ static int NV;
 static void build(void)
 {
 	if (NV) return;
-	for (int s = 0; s < 5; s++) for (int m = 0; m < (1 << DEPTH[s]); m++) for (int p = 0; p < NPATH; p++)
+	for (int s = 0; s < NSHAPE; s++) for (int m = 0; m < (1 << DEPTH[s]); m++) for (int p = 0; p < NPATH; p++)
 		for (int a = 0; a <= DEPTH[s] + 1; a++) {
 			if (a > 0 && m != (1 << DEPTH[s]) - 1 && m != 0) continue;   // trap modes only for two placements (the asserts do not depend on it)
 			V[NV++] = (var){ s, m, p, a };
@@ -85,9 +86,9 @@ static void run(int vi)
 	int depth = DEPTH[v->shape];
 	vx_set_horizon(12ull * 1000000000ull);
 	X = dispatch_queue_create("vx.spec.x", NULL);
-	Q[0] = dispatch_queue_create("vx.spec.0", NULL);
+	Q[0] = v->shape >= 5 ? (dispatch_queue_t)dispatch_workloop_create("vx.spec.0") : dispatch_queue_create("vx.spec.0", NULL);
 	if (depth >= 2) Q[1] = dispatch_queue_create_with_target("vx.spec.1", (v->shape == 3 || v->shape == 4) ? DISPATCH_QUEUE_CONCURRENT : DISPATCH_QUEUE_SERIAL, Q[0]);
-	if (depth >= 3) Q[2] = dispatch_queue_create_with_target("vx.spec.2", v->shape == 4 ? DISPATCH_QUEUE_SERIAL : DISPATCH_QUEUE_CONCURRENT, Q[1]);
+	if (depth >= 3) Q[2] = dispatch_queue_create_with_target("vx.spec.2", (v->shape == 4) ? DISPATCH_QUEUE_SERIAL : DISPATCH_QUEUE_CONCURRENT, Q[1]);
 	for (int i = 0; i < depth; i++) if (v->mask & (1 << i)) dispatch_queue_set_specific(Q[i], &KEY, &VAL[i], NULL);
 	dispatch_queue_set_specific(X, &KEY, &VAL[0], NULL);   // must never be seen from the hierarchy
 	dispatch_queue_t top = Q[depth - 1];
